@@ -84,6 +84,8 @@ def run_program(args):
     import astropy.units as u
     from astropy.nddata import NDData, StdDevUncertainty
     base = E.base_scene(seed=5)
+    # a read-noise dominated error map (values ~185): squares of the integer representations exceed the int16 range
+    base['error'] = base['error'] + 180.0
     segm = E._segm(base)
     ref_inp = dict(base, segm=segm, method='center' if entry == 'aperture_photometry' and rep in ('f4',) else 'exact')
     st0, ref = E.run_entry(entry, dict(ref_inp))
